@@ -38,9 +38,11 @@ func (r *Rng) Chance(num, den int) bool { return r.Intn(den) < num }
 
 func (r *Rng) Pick(xs []string) string { return xs[r.Intn(len(xs))] }
 
-// Fork derives an independent stream labelled by k.
+// Fork derives an independent stream labelled by k. It does not advance r: the derived stream is a pure function of
+// r's current state and k, so worker goroutines may fork a shared root in any order and still get the same streams.
 func (r *Rng) Fork(k uint64) *Rng {
-	return NewRng(r.U64() ^ (k * 0xD6E8FEB86659FD93))
+	c := Rng{s: r.s}
+	return NewRng(c.U64() ^ (k * 0xD6E8FEB86659FD93))
 }
 
 func (r *Rng) Perm(n int) []int {
